@@ -313,6 +313,8 @@ pub trait Tr2 {}
 pub struct X;
 impl Tr for X {}
 impl Tr2 for X {}
+impl Tr for u8 {}
+impl Tr2 for u8 {}
 pub struct P<TT: ?Sized>(pub u8, pub PhantomData<TT>);
 impl<TT: ?Sized> Clone for P<TT> { fn clone(&self) -> Self { P(self.0, PhantomData) } }
 impl<TT: ?Sized> Copy for P<TT> {}
